@@ -15,7 +15,9 @@ rsync -a --exclude target /verif/mc/ $RIG/mc/
 cp -r /verif/mc/target $RIG/mc/target 2>/dev/null
 sed -i "s#path = \"/repo\"#path = \"$RIG/repo\"#" $RIG/mc/harness/Cargo.toml
 sed -i "s#/repo/src#$RIG/repo/src#g" $RIG/mc/loom-c10/build.rs
-CHECKS="C01 C02 C03 C04 C05 C06 C07 C08 C09 C10 C11 C12 C13 C14 C15 C16 C17 C18"
+ALL="C01 C02 C03 C04 C05 C06 C07 C08 C09 C10 C11 C12 C13 C14 C15 C16 C17 C18"
+# REGRESS_MODE=meta: run only the checks that the seed's meta.json lists under caught_by (much faster)
+MODE=${REGRESS_MODE:-all}
 seeds=$(ls -d /verif/seeded/r*-C* /verif/seeded/own/* 2>/dev/null)
 for s in $seeds; do
   name=${s#/verif/seeded/}
@@ -27,13 +29,17 @@ for s in $seeds; do
      echo "$name: BUILD FAILED"; tail -5 $RIG/build.log; continue
   fi
   caught=""
+  CHECKS=$ALL
+  if [ "$MODE" = meta ] && [ -f $s/meta.json ]; then
+    CHECKS=$(python3 -c "import json,re,sys; m=json.load(open('$s/meta.json')); print(' '.join(sorted(set(re.findall(r'C[0-9][0-9]', ' '.join(m.get('caught_by',{}).keys()))))))")
+  fi
   for c in $CHECKS; do
     out=$(cd /verif && VERIF_OUT_DIR=$RIG/out timeout 600 $RIG/mc/target/mc/cobweb-mc check $c --tier quick 2>&1); code=$?
     sig=$(echo "$out" | grep -m1 'signature=' | sed 's/.*signature=\([^ ]*\).*/\1/' | cut -c1-70)
     [ $code -ne 0 ] && echo "$name $c exit=$code $sig"
     [ $code -eq 1 ] && caught="$caught $c"
   done
-  echo "== $name caught by:$caught"
+  echo "== $name caught by:$caught (ran: $CHECKS)"
 done
 git -C /repo worktree remove --force $RIG/repo
 rm -rf $RIG
